@@ -52,11 +52,8 @@ ASSUMPTIONS = ["the Python bindings are covered only statically (schema_py = sch
                "keeps it. -0.0 and +0.0 are identified when judging prost's re-encoding (DESIGN 3.2) and counted",
                "groups (wire types 3/4) and scalar kinds the schema does not use (int32, sint*, fixed*, float) are "
                "outside the codec model (codec_supports is checked on the regenerated schema)"]
-PLANNED = ["codec_decode_any_encoding: decoding ANY conforming encoding of a value (protoc's explicit default key/value in "
-           "map entries, unpacked encodings of packed fields, split packed runs, repeated occurrences of a singular "
-           "field: last-one-wins / merge, arbitrary field order interleavings) yields the same normal form. Proved only "
-           "for the model encoder's own output (codec_roundtrip, any field order, unknown fields anywhere); the other "
-           "encodings are validated by correspondence with protoc and prost only"]
+PLANNED = ["outside the proved relation `conforming` (coq/theories/CodecAny.v): both arms of a oneof on the wire, the same map key "
+           "in two entries, non-canonical scalar payloads (bool written as 2), groups: validated by correspondence only"]
 
 PROTO_DIR = os.path.join(C.REPO, "proto")
 
